@@ -20,6 +20,7 @@ def enum(n):
 
 
 class VerifyRule(BaseRule):
+    namedtuple_as_tuple = False  # _WrappedAndVerifiedSocket(...) is an event of this rule
     def __init__(self, pyopenssl, never_cn):
         self.g = {"IS_PYOPENSSL": const(pyopenssl), "HAS_NEVER_CHECK_COMMON_NAME": const(never_cn)}
 
